@@ -34,7 +34,11 @@ RULE = ('random call graphs: 1-5 levels, 1-2 callables per level drawn from func
         'families with a signature of their own: every 50th case (i % 50 == 7) a local variable named like the function / '
         'external entity it invokes, every 50th case (i % 50 == 23) a constant or an enumeration named like a function '
         'with a caller that uses both; instance operations and derived attributes use the NAME self (any letter case) in '
-        'relate / unrelate / delete')
+        'relate / unrelate / delete; every case repeats one or two invocations after a change of the population made '
+        'from Python; every 4th case interprets ANOTHER model (same loader, same process) in the middle of its invocations; '
+        'every 10th case invokes a function that fails half way between the others and repeats them after it; every 50th '
+        'case (i % 50 == 37) names a constant / enumeration like a function in another letter case (must work); '
+        'parameters whose names differ in letter case only')
 EXHAUSTIVE = {'quick': False, 'thorough': False}
 ASSUMPTIONS = ['bodies are type-correct, terminating and error-free under the reference semantics (decided by Spec)',
                'callables do not delete instances; callables used in where clauses and derived attributes do not change the population',
